@@ -148,14 +148,23 @@ def run_check(pid, tier, seed, replay=None, budget_s=None):
     rng = core.SplitMix64(seed)
     deadline = None if budget_s is None else t0 + budget_s
 
+    known_classes = set(k["cls"] for k in known)
+
+    def only_known(r):
+        """every failing verdict of this script, taken alone, is of a listed known-finding class"""
+        fails = [sv for sv in r["spec"] if sv.startswith("FAIL")]
+        return bool(fails) and all(prop.classify(r["script"], {"spec": [sv], "impl": [], "model": []}) in known_classes for sv in fails)
+
     def explore(scripts, tag, batch_size=None):
         for batch in batched(scripts, batch_size or prop.BATCH):
             if deadline is not None and time.time() > deadline:
                 break
             stats.add(core.run_scripts(batch, workdir, tag))
-            if stats.spec_fail and len(stats.spec_fail) > 20:
+            # failures that are, verdict by verdict, listed known findings do not end the exploration
+            fresh = [r for r in stats.spec_fail if not only_known(r)]
+            if len(fresh) > 20:
                 break
-            if tag == "search" and stats.spec_fail:
+            if tag == "search" and fresh:
                 break
 
     if impl_ok:
@@ -184,6 +193,8 @@ def run_check(pid, tier, seed, replay=None, budget_s=None):
     reported_classes = set()
     new_fail = None
     for r in stats.spec_fail:
+        if only_known(r) and prop.classify(r["script"], r) in reported_classes:
+            continue            # this known finding has been reported already; no need to shrink every further instance
         s = core.shrink(r["script"], "spec", workdir) if len(r["script"].ops) > 1 and not r["script"].meta.get("noshrink") else r["script"]
         rr = core.run_scripts([s], workdir, "final")[0]
         if core.first_problem(rr) is None:   # flaky shrink: fall back to the original
